@@ -64,9 +64,10 @@ PROPS = {
         "rules": [HF.r_bitcopy, BR.r_bracket, BR.r_reader_writer, BR.r_fanout, BR.r_columns, FW.r_forward,
                   todo({"push", "index"}, ("Region", "Push")), X.r_iter_readitems,
                   A.r_freeze, A.r_foreign_writers, A.r_reject_stored, I.r_concat, CD.r_tags, CD.r_bitmap, CD.r_literal_guard, O.r_zip_byref, FW.r_skip_take,
-                  L.r_reset, A.r_append, CD.r_stats, FW.r_pushstorage, CD.r_decode_total, O.r_byref_while, CD.r_bytesmap, HF.r_chunk, HF.r_chunk_align, I.r_len_step, O.r_onto],
+                  L.r_reset, A.r_append, CD.r_stats, FW.r_pushstorage, CD.r_decode_total, O.r_byref_while, CD.r_bytesmap, HF.r_chunk, HF.r_chunk_align, I.r_len_step, O.r_onto, I.r_ovf],
         "explanation": "Static analysis of the un-instantiated MIR of every Push/Region impl: decides the structural necessary conditions of the round trip for all instantiations and paths, not the value equality itself.",
         "decided": [
+            "R-OVF also under the round trip: no overflow-checked arithmetic on a pushed value in Stride::push (a push that panics in checked builds stores nothing to read back)",
             "R-ONTO also under the round trip: the owned conversion written by clone_onto overwrites its target on every path (a None item does not leave a stale Some behind)",
             "R-LEN-STEP also under the round trip: a value Stride::push accepts is represented by the state it leaves (a saturated stride does not resume stepping)",
             "R-APPEND (whole-byte copies): no push path copies whole bytes for a range of bits into the encoded buffer without masking the tail",
@@ -334,7 +335,8 @@ PROPS = {
         "rules": [c19_freeze, X.r_index_types, A.r_noheap_until_spill, only(BR.r_bracket, DENSE_ONLY),
                   only(L.r_seed, DENSE_ONLY), only(L.r_reset, {"FlatStack"} | DENSE_ONLY | INDEX_ONLY), only(L.r_clone, INDEX_ONLY), A.r_spill_unattempted, I.r_concat],
         "explanation": "Cheapest-first order of the representations is a guard property; the zero-heap claim for Stride follows from its field types.",
-        "decided": ["R-GUARD: the cheap representation is attempted whenever the expensive one is still empty, and the first spill happens only after that attempt failed",
+        "decided": [
+            "R-NOHEAP for every constructor: merge_regions (when overridden) gives the spill list no capacity either","R-GUARD: the cheap representation is attempted whenever the expensive one is still empty, and the first spill happens only after that attempt failed",
                     "type inventory: Stride has only usize fields; IndexList stores u32 in S and u64 in L",
                     "R-NOHEAP: the spill list gets no capacity before something spilled", "dense outward indices of ConsecutiveIndexPairs (R-BRACKET/R-SEED) keep FlatStack's own indices strided",
                     "R-GUARD (bulk paths): outside push, no method of a two-level container appends to the costly level unconditionally; R-CONCAT: is_empty looks at both levels (the stride is abandoned for good once anything spilled)",
